@@ -2,6 +2,8 @@
 
 // C09 — CRL: whatever the CRLs contain (missing numbers, extensions, entries) (harnesses of C05/C10)
 //verif:pkg revocation/internal/crl
+// for the bounded inputs of these harnesses no loop of the code under test runs anywhere near 300 iterations: more is a hang
+//verif:terminates github.com/notaryproject/notation-core-go/ 300
 //verif:include ../C05/lemmas.go
 //verif:include ../C05/points.go
 //verif:include ../C10/c10.go
